@@ -1,7 +1,7 @@
 """C19 FRR reload delivery: Model/Debounce.v + trace validation of the two real debouncers."""
 import json
 
-CLOSURE = ["Model/Debounce.v", "Proofs/DebounceP.v"]
+CLOSURE = ["Model/Debounce.v", "Proofs/DebounceP.v", "Model/FrrMgr.v", "Proofs/FrrMgrP.v", "Proofs/FrrMgrDebP.v"]
 COQ_FILES = ["Corr/Run_Debounce.v"]
 FRR_PKG = "internal/bgp/frr"
 # the package's own tests have a TestMain that needs Docker: deleted in the overlay
